@@ -110,11 +110,11 @@ func (vm *vm) run() error {
 
 		for i := vm.blockTos - 1; i >= 0; i-- {
 			v, ok = vm.blockStack[i].Fields[name]
-			if ok {
+			if _, isChild := v.(Block); ok && !isChild {
 				return v, ok
 			}
 		}
-		return
+		return nil, false
 	}
 	blockSet := func(name string, v value) {
 		vm.blockStack[vm.blockTos-1].Fields[name] = v
